@@ -33,6 +33,48 @@ func ucdaoFn(name string) string { return "(" + ucdaoK + ".BaseKeeper)." + name 
 
 func runC12(r *Run) {
 	defer importProcessLocal(r, "RM", "x/ucdao")
+	defer func() {
+		r.Rule("R9", "ERR.failed-steps-fail-the-message: the DAO keeper writes the owner's reduced balance before it credits the recipient and relies on the message failing as a whole when a later step is rejected; in the ucdao message server and in Fund / TransferOwnership a non-nil error of a keeper or Haqq call reaches only failure exits — a handler that answers success after the keeper refused (e.g. for an amount that truncates to zero) commits the half-done transfer: share is destroyed")
+		var fns []*ssa.Function
+		for _, fn := range r.P.Funcs {
+			if !pathHasSuffix(fnPkgPath(fn), "x/ucdao/keeper") || fn.Synthetic != "" || fn.Parent() != nil || isTestSupport(r.P, fn) {
+				continue
+			}
+			recv := ""
+			if fn.Signature.Recv() != nil {
+				recv = namedName(deref(fn.Signature.Recv().Type()))
+			}
+			if recv == "msgServer" || (recv == "BaseKeeper" && (fn.Name() == "Fund" || fn.Name() == "TransferOwnership")) {
+				fns = append(fns, fn)
+			}
+		}
+		n := checkErrorsFailTheMessage(r, "R9", fns, "the ledger writes made before the failing step are committed")
+		r.Floor("R9", "error-returning keeper calls in the DAO message path", n, 6)
+		r.Rule("R10", "SHAPE.index-decided-by-balances-only: setHoldersIndex lists an address exactly when its DAO balances are not all zero — every branch condition in it is built from GetAccountBalances(addr).IsZero() and holdersStore.Has(key) alone; a condition that consults anything else (the bank keeper's blocked addresses, account types) makes the index differ from the set of non-zero accounts")
+		if sh, ok := r.P.FnOK("(x/ucdao/keeper.BaseKeeper).setHoldersIndex"); ok {
+			allowed := map[string]bool{"GetAccountBalances": true, "IsZero": true, "Has": true, "MustLengthPrefix": true, "getHoldersStore": true, "KVStore": true, "NewStore": true}
+			bad, nIf := "", 0
+			for _, b := range sh.Blocks {
+				ifi, isIf := lastIf(b)
+				if !isIf {
+					continue
+				}
+				nIf++
+				backSlice(ifi.Cond).Any(func(v ssa.Value) bool {
+					if c, ok := v.(*ssa.Call); ok {
+						if n := callInfo(c).Name; !allowed[n] && bad == "" {
+							bad = callInfo(c).String() + " at " + r.P.Pos(instrPos(c))
+						}
+					}
+					return false
+				})
+			}
+			r.Check(bad == "" && nIf >= 2, "R10", fnID(sh)+"#decided-by-balances-only", r.P.Pos(fnPos(sh)), fmt.Sprintf("%d conditions, all over the address's balances and its current index entry", nIf),
+				"the holder index is decided by "+bad+" too: an account with a non-zero DAO balance can be left out of the index (or a zero one kept)")
+		} else {
+			r.Bad("R10", "anchor/setHoldersIndex", "", "not found")
+		}
+	}()
 	P := r.P
 	r.Rule("R1", "OWN: KVStore Set/Delete inside x/ucdao/keeper only in {setBalance, setHoldersIndex, setTotalBalanceOfCoin, SetParams/params setters}; setBalance ← {addCoinsToAccount, TransferOwnership}; setTotalBalanceOfCoin ← {Fund, InitGenesis}; addCoinsToAccount ← {Fund, TransferOwnership, InitGenesis}; setHoldersIndex ← {Fund, TransferOwnership, InitGenesis}; no caller outside the keeper package")
 	r.Rule("R2", "PATH+FLOW Fund: error-checked SendCoinsFromAccountToModule(ctx, sender, ucdao, amount) precedes every ledger write; each addCoinsToAccount(sender, coin) is followed by setTotalBalanceOfCoin(GetTotalBalanceOf(coin.Denom)+coin) of the same coin before the next credit or a success exit, and no total update happens without a preceding credit; setHoldersIndex(sender) on every success path")
